@@ -4,6 +4,8 @@ import SJ.Proofs.Lookup
 import SJ.Proofs.GoNum
 import SJ.Proofs.GoObject
 import SJ.Proofs.GoArrNum
+import SJ.Proofs.GoApi
+import SJ.Proofs.GoFind
 /-
 C12 — Lookup, filtered iteration and bulk accessors agree with plain traversal.
 -/
@@ -154,5 +156,56 @@ theorem C12_bulk_accessors_follow_source (pj : PJ) (v : View) (fuel : Nat) :
       (View.asNum pj .asUint64 v #[] fuel) ∧
     ((v.lim - v.off) / 2 + 1 ≤ fuel → ∀ kind, View.asNum pj kind v #[] fuel ≠ .diverge) :=
   go_arrnum_source_tie pj v fuel
+
+open SJ.GoSem SJ.Generated SJ.GoIter SJ.GoObject SJ.GoApi in
+/-- **Source tie** (DESIGN §6.3). `Iter.Object`, `Iter.Array`, `Iter.Root`, `Iter.String` (through
+    `ParsedJson.stringAt`), `Iter.StringCvt`, `floatToString` and `Object.NextElement` are printed from /repo as syntax
+    trees on every run (a nil destination is a flag; allocation zeroes or copies the fields). Their meaning under
+    `GoSem.exec` is the model's `Iter.object`, `Iter.array`, `Iter.root`, `stringBytes`, `stringCvt`, `appendFloat`,
+    `View.nextElementBytes`: same view / iterator / bytes and nil, or an error; receiver and tape untouched. `lim, off <
+    2^63` says that lengths are Go `int`s. `Iter.Root` returns `TagToType[tag]` where the model applies `Iter.Type()`
+    (which also tests the bounds): they differ only when the root's payload cuts a two-word value in half
+    (`RootTypeOK`; witness `rootWitness_*` in `Proofs/GoApi`), never on a parsed or edited tape. -/
+theorem C12_api_follows_source (pj : PJ) (hb : BufOK pj) (i d0 : Iter) (dv v : View) (b : Bool) (bits : UInt64)
+    (hl : i.lim ≤ pj.tape.size) (hlim : i.lim < 2^63) (hoff : i.off < 2^63) (hv : v.lim ≤ pj.tape.size)
+    (fuel : Nat) (hf : apiFuel pj i v bits ≤ fuel) :
+    -- Object, Array
+    SimView pj.tape (viewStore i dv b) i (runFun goFuns goIter_Object fuel ⟨viewStore i dv b, pj.tape⟩) i.object ∧
+    SimView pj.tape (viewStore i dv b) i (runFun goFuns goIter_Array fuel ⟨viewStore i dv b, pj.tape⟩) i.array ∧
+    -- Root: exactly, and against the model's `Type`
+    SimRoot pj.tape (rootStore i d0 b) b i (runFun goFuns goIter_Root fuel ⟨rootStore i d0 b, pj.tape⟩) (i.root pj) ∧
+    (RootTypeOK pj i →
+      SimRootM pj.tape (rootStore i d0 b) b i (runFun goFuns goIter_Root fuel ⟨rootStore i d0 b, pj.tape⟩) (i.root pj)) ∧
+    -- String (through stringAt), StringCvt
+    SimBytes pj (fun e' => ∀ k, e'.get k = (envOf "i" i ++ bufEnv pj).get k)
+      (runFun goFuns goIter_String fuel ⟨envOf "i" i ++ bufEnv pj, pj.tape⟩) (i.stringBytes pj) ∧
+    SimCvt pj i (runFun goFuns goIter_StringCvt fuel ⟨envOf "i" i ++ bufEnv pj, pj.tape⟩) (stringCvt pj i) ∧
+    -- floatToString
+    (∃ s, runFun goFuns gofloatToString fuel ⟨[("f", .u64 bits)], pj.tape⟩ = .ret s (GoApiFloat.ftsVals bits) ∧
+      s.tape = pj.tape) ∧
+    -- NextElement
+    SimNE pj d0 (runFun goFuns goObject_NextElement fuel ⟨neEnv v d0 pj, pj.tape⟩) (View.nextElementBytes pj v fuel) :=
+  SJ.GoApi.go_api_source_tie pj hb i d0 dv v b bits hl hlim hoff hv fuel hf
+
+open SJ.GoSem SJ.Generated SJ.GoIter SJ.GoObject SJ.GoDelete SJ.GoPJForEach SJ.GoFind in
+/-- **Source tie** (DESIGN §6.3). `Object.FindKey`, `Object.FindPath` and `Iter.AdvanceIter` specialised to
+    `tmp.AdvanceIter(&tmp)` (destination IS the receiver) are printed from /repo as syntax trees on every run. Their
+    meaning under `GoSem.exec` is the model's `View.findKey` / `View.findPathTop` that `C12_findKey` and `C12_findPath`
+    are about: non-nil with the same type, name and iterator exactly when the model finds the member, nil / an error
+    exactly when it does not, a panic exactly when the model panics; for a nil or a caller-supplied destination.
+    Two places where the model idealises are stated exactly: when the value after the key is only NOPs up to the end of
+    the view Go leaves a caller's `dst.Iter` untouched where the model reports the zero iterator (`D0`; such a tape is
+    not produced by parsing, editing or deletion), and after `tmp.AdvanceIter(&tmp)` on a word with an unknown tag the
+    single object is the restricted view (not observable: the next statement returns the "not an object" error). -/
+theorem C12_find_follows_source (pj : PJ) (hb : BufOK pj) (v : View) (hl : v.lim ≤ pj.tape.size) (key : Bytes)
+    (path : List Bytes) (nil : Bool) (d0 : Iter) (extra : Env) (i : Iter) (hil : i.lim ≤ pj.tape.size) (fuel mf : Nat)
+    (hmf : v.lim - v.off + 1 ≤ mf) (hf : 2 * v.lim + 11 ≤ fuel) (hfi : fuelFor i ≤ fuel) :
+    SimSelf pj.tape (runFun goFuns goIter_AdvanceIter_self fuel ⟨envOf "i" i ++ extra, pj.tape⟩) (advanceIterSelf pj i) ∧
+    SimSelfModel pj (runFun goFuns goIter_AdvanceIter_self fuel ⟨envOf "i" i ++ extra, pj.tape⟩) (i.advanceIter pj i) ∧
+    FKPost pj key (D0 nil d0) (runFun goFuns goObject_FindKey fuel ⟨fkStore pj v key nil d0 extra, pj.tape⟩)
+      (View.findKey pj key v.iter mf) ∧
+    FPPost pj (pathLast path) nil (D0 nil d0)
+      (runFun goFuns goObject_FindPath fuel ⟨fpStore pj v path nil d0 extra, pj.tape⟩) (View.findPathTop pj v path) :=
+  SJ.GoFind.go_find_source_tie pj hb v hl key path nil d0 extra i hil fuel mf hmf hf hfi
 
 end SJ.Properties.C12
